@@ -176,8 +176,52 @@ func codecFacts() {
 	natFact("codecV1HeaderSize", v, ok, "server/wal/codec/v1.go: v1PayloadSizeLen", "")
 }
 
+// dbFacts: facts about server/kv/db.go and server/secondary_indexes.go.
+func dbFacts() {
+	f := parse("server/secondary_indexes.go")
+	fn := funcDecl(f, "", "doSecondaryGet")
+	body := ""
+	if fn != nil {
+		body = squash(src(fn.Body))
+	}
+	// the loop rejects iterator positions outside "__oxia/idx/<indexName>/"
+	stays := strings.Contains(body, "strings.HasPrefix(itKey, indexPrefix)") &&
+		strings.Contains(body, "indexPrefix := fmt.Sprintf(secondaryIdxRangePrefixFormat, indexName, \"\")")
+	add("secondaryGetChecksIndexName", "Bool", boolLean(stays), "server/secondary_indexes.go: doSecondaryGet",
+		fmt.Sprintf("guard `strings.HasPrefix(itKey, indexPrefix)` present: %v", stays))
+
+	d := parse("server/kv/db.go")
+	v, ok := constEval(d, topVarValue(d, "DeleteRangeThreshold"), 0)
+	natFact("deleteRangeThreshold", v, ok, "server/kv/db.go: DeleteRangeThreshold", "")
+	// order of the three loops in applyWriteRequest
+	aw := funcDecl(d, "db", "applyWriteRequest")
+	awb := ""
+	if aw != nil {
+		awb = squash(src(aw.Body))
+	}
+	i1, i2, i3 := strings.Index(awb, "range b.Puts"), strings.Index(awb, "range b.Deletes"), strings.Index(awb, "range b.DeleteRanges")
+	add("applyOrderPutsDeletesRanges", "Bool", boolLean(i1 >= 0 && i1 < i2 && i2 < i3), "server/kv/db.go: applyWriteRequest",
+		fmt.Sprintf("positions of the loops over Puts/Deletes/DeleteRanges: %d %d %d", i1, i2, i3))
+	// ProcessWrite: exactly one batch.Commit(), preceded by the commit offset, last version id and notifications
+	pw := funcDecl(d, "db", "ProcessWrite")
+	pwb := ""
+	if pw != nil {
+		pwb = squash(src(pw.Body))
+	}
+	c := strings.Index(pwb, "batch.Commit()")
+	single := c >= 0 && strings.Count(pwb, "batch.Commit()") == 1 &&
+		strings.Index(pwb, "applyWriteRequest(") >= 0 && strings.Index(pwb, "applyWriteRequest(") < c &&
+		strings.Index(pwb, "addASCIILong(commitOffsetKey") >= 0 && strings.Index(pwb, "addASCIILong(commitOffsetKey") < c &&
+		strings.Index(pwb, "addASCIILong(commitLastVersionIdKey") >= 0 && strings.Index(pwb, "addASCIILong(commitLastVersionIdKey") < c &&
+		strings.Index(pwb, "addNotifications(batch") >= 0 && strings.Index(pwb, "addNotifications(batch") < c &&
+		strings.Index(pwb, "applyWriteRequest(") < strings.Index(pwb, "addASCIILong(commitLastVersionIdKey")
+	add("processWriteSingleBatchCommit", "Bool", boolLean(single), "server/kv/db.go: ProcessWrite",
+		"one batch.Commit(); applyWriteRequest, commit offset, last version id and notifications are added to the same batch before it, the version id after the operations were applied")
+}
+
 // moreFacts collects the facts of the other properties (added per property).
 func moreFacts() {
 	walFacts()
 	codecFacts()
+	dbFacts()
 }
